@@ -50,8 +50,11 @@ def entropy_for_scalar(group, x):
     calls = []
 
     def f(n):
+        # first request: the bytes that yield x; any further request (re-draw) yields x+1, x+2, ... so that code which
+        # draws again cannot livelock the oracle and its effect becomes visible
+        v = (x + len(calls)) % (256 ** n)
         calls.append(n)
-        return (x % (256 ** n)).to_bytes(n, "big")
+        return v.to_bytes(n, "big")
     f.calls = calls
     return f
 
@@ -92,6 +95,15 @@ def find_seed_with_log(group, mu, limit=20000):
         if group.arbitrary_element(seed).to_bytes() == target:
             return seed
     return None
+
+
+def leading_zero_scalar(make_start, limit=4000):
+    """search a secret scalar for which start() yields an element encoding beginning with 00 (integer groups)"""
+    for x in range(1, limit):
+        m = make_start(x)
+        if m[1] == 0:
+            return x, m
+    return None, None
 
 
 def finish_outcome(inst, msg):
